@@ -12,7 +12,7 @@ META = {
                   "and duplicates, T <= 2 (3) workers, B <= 2 (3): the call always returns Expected(req, skip) = one slot per request in request "
                   "order, slot i = SeqRead(req[i]); the shared-handle and the stale-handle-reuse variants of the model violate it; a second call after the archive at the path was replaced (generation 2) is part of the model. TLC then generates configurations "
                   "(interface x threads x batch x request size around batch multiples and the 1000 / 5000 switches x skip x missing position x "
-                  "duplicates); the driver runs the real interfaces (incl. the two parallel PatchChain constructors) repeatedly under CPU contention next to a sequential Archive::read_file "
+                  "duplicates; which setters of ParallelConfig were called; all four multi-archive helpers x archive count 0..9 (thorough ..24)); the driver runs the real interfaces (incl. the two parallel PatchChain constructors) repeatedly under CPU contention next to a sequential Archive::read_file "
                   "reference; TLC validates every returned slot against ParExtract!ExpectedFrom.",
     "level_note": "Schedules of the real thread pool are sampled (repeated runs, contention threads, thread counts 1..32, optional verif_yield hook), "
                   "not enumerated; exhaustiveness over schedules is a statement about the model only. Trusted: SHA-1 interning of contents by the driver.",
@@ -26,7 +26,9 @@ def sig(b):
     r = b.get("rec") or {}
     n = r.get("n", 0)
     return {"why": (b.get("why") or "").strip('"'), "iface": r.get("iface"), "skip": r.get("skip"), "miss": r.get("miss"),
-            "spell": r.get("spell"), "dup": r.get("dup"),
+            "spell": r.get("spell"), "dup": r.get("dup"), "set": r.get("set"),
+            # multi-archive helpers (arch W): n = archive count; a reduce tree over it is balanced only for powers of two
+            "count": ("pow2" if n & (n - 1) == 0 else "uneven") if r.get("arch") == "W" else None,
             "path": "batched" if (r.get("iface") == "with_config" and n > 1000) or r.get("iface") == "files_batched" else "unbatched"}
 
 
@@ -43,6 +45,16 @@ def run(ctx, cases=None):
             and "Invariant ScheduleIndependent is violated" not in text:
         raise core.ToolError("stage A: the StaleHandleReuse deviation of ParExtract is not refuted by the model checker")
     ctx.notes.append("MC_ParExtract_stale (StaleHandleReuse: per-thread handle kept across a replacement of the archive): refuted")
+    # the named deviation UnorderedJoin (the reduce tree appends the shorter run to the longer one) is refuted
+    rc, text = ctx.tlc("MC_ParExtract", "MC_ParExtract_swap", workers=4, timeout=600, tag="mc-swap")
+    if "Invariant ScheduleIndependent is violated" not in text:
+        raise core.ToolError("stage A: the UnorderedJoin deviation of ParExtract is not refuted by the model checker")
+    ctx.notes.append("MC_ParExtract_swap (UnorderedJoin: reduce tree joins the shorter run behind the longer one): refuted (3 tasks)")
+    # the named deviation ZeroDefaultBatch (a configuration whose batch size was never set carries 0) is refuted
+    rc, text = ctx.tlc("MC_ParExtract", "MC_ParExtract_nobatch", workers=4, timeout=600, tag="mc-nobatch")
+    if "Invariant ScheduleIndependent is violated" not in text:
+        raise core.ToolError("stage A: the ZeroDefaultBatch deviation of ParExtract is not refuted by the model checker")
+    ctx.notes.append("MC_ParExtract_nobatch (ZeroDefaultBatch: unset batch size = 0, batched path panics): refuted")
     if cases is None:
         cases, ncases = ctx.gen("Gen_ParExtract")
     else:
@@ -75,12 +87,13 @@ def run(ctx, cases=None):
                                   "contention_threads": 16 if ctx.thorough else 6, "runs_per_configuration": "6 (2 for |req| > 500)" if ctx.thorough else 2},
         "calls_by_interface_and_result": ifaces,
         "distinct_nontrivial": ncases,
-        "rule": "one case = one configuration (interface, archive, threads, batch, |req|, skip, missing position, duplicates), distinct by set "
+        "rule": "one case = one configuration (interface, archive, threads, batch, |req| or archive count, skip, missing position, duplicates, spelling, setters called), distinct by set "
                 "enumeration in TLC; each is run 2 (quick) / 6 (thorough; 2 for |req| > 500) times",
         "exhaustive": False,
     }
     assumptions = ["the sequential reference is Archive::read_file on one plain handle (C01 is about whether that is right)",
-                   "batch sizes >= 1 and thread counts >= 1 (the quantifier of C09); chunks(0) / threads(0) are outside"]
+                   "batch sizes >= 1 and thread counts >= 1 where the caller SETS them (the quantifier of C09); batch_size(0) / threads(0) are outside; "
+                   "a configuration on which a setter was never called is inside, whatever default the code gives it"]
     return core.finish(ctx, "model_checking", cov, assumptions, res["bad"], sig_fn=sig, trace=trace)
 
 
